@@ -156,3 +156,6 @@ def run(chk, replay):
     # code -> spec: strains recorded on large generated plotfiles and the assets (Colander!StrainSpec in OpTrace.tla)
     from harness import optrace
     optrace.phase(chk, ["strain"], "colander on large inputs", 60, 600, assets=["example_plt_3d", "example_plt_2d", "plt1_Y"], nops=3)
+    # the command line layer (spec/Cli.tla): every subset of the tool's options typed to the real main(), API intercepted
+    from harness import cli
+    cli.phase(chk, "colander")
